@@ -1,11 +1,15 @@
 """per-property claims (source of MANIFEST.json; see tools_gen_manifest.py)"""
 
 TECH = ('static analysis: symbolic path tables of the anchored methods (ast, no execution) compared region by region '
-        'with reference tables written from the property, plus %s')
+        'with reference tables written from the property, plus %s; class-protocol and dependency-layer rules')
 NOTE = ('Decides the mechanism in the source, not runtime behaviour. Trusted: CPython semantics (generators, heapq, '
         'list.sort stability, tuple comparison), %s. Dimensions of the predicate abstraction are treated as independent '
         '(can only make more path pairs look feasible, i.e. is conservative). A structural change the canonicaliser does '
-        'not see through is reported as a difference from the reference table with file:line.')
+        'not see through is reported as a difference from the reference table with file:line. Every check also runs the '
+        'class-protocol rule over the classes it consulted and (from C06 on) the reference tables of the layers below the '
+        'property (kernel, element stores, Packet/Device). Arithmetic is compared over the reals: a float re-association is '
+        'invisible (two recorded known misses). State a change adds that no confirmed code reads, new optional parameters at '
+        'their defaults and new classes nothing refers to are left out of the verdict and listed in the evidence notes.')
 
 
 def c(text, ref, extra_tech, trusted):
